@@ -213,15 +213,18 @@ def absentVldOK (E : Env) (f : Field) : Bool :=
   | .ok _ => true
   | .error _ => false
 
+/-- `None` is a typed value of the annotation (what an attribute without a key holds) -/
+def nullReads (E : Env) (bad : List PyTy) (t : PyTy) : Bool := rep E bad 4 t .none .null
+
 /-- the attribute `fb` of the target class can take over what the source class `ca` read under the same key -/
 def fieldConv (E : Env) (bad : List PyTy) (st : St) (ca : Cls) (fb : Field) : Bool :=
   match ca.fields.find? (·.wireS == fb.wireS) with
-  | Option.none => fb.dflt == Dflt.none && absentVldOK E fb
+  | Option.none => fb.dflt == Dflt.none && absentVldOK E fb && nullReads E bad fb.ty
   | some fa =>
     let nn := (fa.omitU && fa.dflt == Dflt.none && !fa.ty.anyNull) || !((kindsOf E kindsFuel fa.ty).contains Kind.none)
     let sure := fa.certain || st.present.contains fb.wireS
     tyConv bad nn fa.ty fb.ty && vldConv nn fa.vld fb.vld &&
-    (sure || (fb.dflt == Dflt.none && absentVldOK E fb)) &&
+    (sure || (fb.dflt == Dflt.none && absentVldOK E fb && nullReads E bad fb.ty)) &&
     (match fb.dflt with
      | .none => !fb.omitU || nn || fb.ty.anyNull
      | .str _ => !fb.omitU
